@@ -70,6 +70,25 @@ Expect(p) == LET c == Outcome(p) IN
 \* do the operational and the declarative layer agree on a program?
 Agree(p) == LET o == OpOutcome(p) d == Outcome(p) IN d.k = "open" \/ (o.k = d.k /\ (o.k = "path" => o.p = d.p))
 
+\* ---------------------------------------------------------------- further C05 programs (small hand-shaped families)
+(* unknown target: a map / ignore line naming a target field that does not exist must fail, whatever ignoreMissing says.
+   method: source struct with field NAME (token 1) and/or an argument-less method Name / NaMe (token 2), target field
+           Name: exact name beats case-insensitive candidates, several candidates are an error.
+   reuse:  a field setting on the pointer-variant method Conv(ptr S) ptr T while a second declared method converts the struct
+           pair S -> T itself (as slice element or directly): the setting would be bypassed, generation must fail.   *)
+XProgs == {[x |-> "unknown-target", line |-> l, im |-> i] : l \in {"map B Zz", "ignore Zz", "map Zz Zz"}, i \in BOOLEAN}
+            \cup {q \in {[x |-> "method", field |-> f, meth |-> m, mic |-> c] : f \in {"none", "NAME", "Name"}, m \in {"none", "Name", "NaMe"}, c \in BOOLEAN} :
+                      ~(q.field = "Name" /\ q.meth = "Name")}        \* Go forbids a field and a method of the same name
+            \cup {[x |-> "reuse", setting |-> st, second |-> sc] : st \in {"none", "map", "ignore", "autoMap"}, sc \in {"none", "slice", "value"}}
+XExpect(q) ==
+  CASE q.x = "unknown-target" -> [gen |-> "fail", val |-> 0]
+    [] q.x = "reuse" -> [gen |-> IF q.setting # "none" /\ q.second # "none" THEN "fail" ELSE "ok", val |-> 0]
+    [] q.x = "method" ->
+         LET exact == (IF q.field = "Name" THEN {"f"} ELSE {}) \cup (IF q.meth = "Name" THEN {"m"} ELSE {})
+             ci == IF q.mic THEN (IF q.field = "NAME" THEN {"f"} ELSE {}) \cup (IF q.meth = "NaMe" THEN {"m"} ELSE {}) ELSE {}
+             pick == IF exact # {} THEN exact ELSE ci IN
+         IF Cardinality(pick) = 1 THEN [gen |-> "ok", val |-> IF pick = {"f"} THEN 1 ELSE 2] ELSE [gen |-> "fail", val |-> 0]
+
 \* ---------------------------------------------------------------- accessibility programs (C03 / C05)
 \* target struct TQ in package q, which is not the output package, with an unexported field secret; source SQ in
 \* package q with an unexported field hidden; the setting selects how secret or the exported field Open is fed
